@@ -29,14 +29,20 @@ SPIN_DEP_KINDS = {"uhf", "ghf", "noci", "multislater", "UCISD", "ucisd", "GCISD"
 SCALINGS = ["none", "hi-lo", "lo-hi"]
 
 
-def tol_meas(kind):
-    """energy / force bias 'unchanged': float64 formulas 1e-9; kinds with a complex64 intermediate 2e-5;
-    finite-difference (AD) kinds 3e-6 (round-off 1e-16/eps^2 of the second difference) -- as in C02."""
+def tol_energy(kind, pat):
+    """local energy 'unchanged' between W and Q, by arithmetic class of the energy routine (cf. C02):
+    float64 formulas 1e-9; kinds with a complex64 intermediate 2e-5; finite-difference kinds (second difference with
+    step eps = 1e-4, round-off ~ 1e-16 kappa / eps^2): each evaluation is within 3e-6 of the exact value on well scaled
+    walkers (C02), so two of them differ by <= 6e-6; on the 1e+-6 column scalings the round-off of the second difference
+    grows with the dynamic range of the walker entries and 3e-5 is allowed."""
     if kind in trials.AUTO_KINDS:
-        return 3e-6
+        return 6e-6 if pat == "none" else 3e-5
     if kind in C64_KINDS:
         return 2e-5
     return 1e-9
+
+
+TOL_FB = 1e-9  # force bias is exact algebra / AD for every kind (C03)
 
 
 def scal_vec(k, pat, flip=False):
@@ -213,7 +219,6 @@ def job_qr(cfg):
         modes.append("u")
     if tc.restricted_ok and na >= nb:
         modes.append("r")
-    tolm = tol_meas(kind)
     for mode in modes:
         grid = al.walker_grid(n, na, nb, seed, restricted=(mode == "r"), cap=qr_cap(mode, thorough, lite))
         if grid["capped"]:
@@ -286,7 +291,7 @@ def job_qr(cfg):
                 fscale = max(1.0, np.abs(FQ[good]).max()) if ng else 1.0
                 e_f = np.where(good, np.where(np.isfinite(FW).all(axis=1) & np.isfinite(FQ).all(axis=1),
                                               np.abs(FW - FQ).max(axis=1) / fscale, np.inf), 0.0)
-                for what, e, tol in (("overlap", e_o, TOL_OVLP), ("energy", e_e, tolm), ("force_bias", e_f, tolm)):
+                for what, e, tol in (("overlap", e_o, TOL_OVLP), ("energy", e_e, tol_energy(kind, pat)), ("force_bias", e_f, TOL_FB)):
                     bad = gridmc.first_bad(e, tol)
                     if bad is not None:
                         sig = "%s/%s:%s-after-qr/par:%s" % ("qr_vmap" if mode == "r" else "qr_vmap_uhf", kind, what, gridmc.param_class(p.label))
@@ -644,7 +649,7 @@ def run(ctx):
                 "non-trivial & distinct = distinct non-zero overlaps after QR / of initial walkers")
     ctx.assume("walker grids are a dense exhaustive test for QR (not a polynomial identity); walkers whose column-normalised smallest singular value is < 1e-2 or whose reference overlap is < 1e-2 of the grid maximum (energy, force bias only) are excluded beforehand")
     ctx.assume("restricted walkers with n_dn < n_up: qr_vmap returns one factor; the beta factor is the product of the leading n_dn diagonal entries of Q^H W, taken from the oracle's own Q^H W after it was verified upper triangular with prod diag = returned factor")
-    ctx.assume("'unchanged' tolerances by arithmetic class as in C02: 1e-9 float64 formulas, 2e-5 complex64 intermediates (cisd, ucisd), 3e-6 finite-difference AD trials")
+    ctx.assume("'unchanged' tolerances: force bias 1e-9 for every kind; energy by arithmetic class as in C02: 1e-9 float64 formulas, 2e-5 complex64 intermediates (cisd, ucisd), finite-difference AD trials 6e-6 (two evaluations each within C02's 3e-6) and 3e-5 on the 1e+-6 column scalings (round-off of the second difference at step 1e-4)")
     ctx.assume("'bounded away from zero' = |<psi_T|phi>| / (|psi_T| |phi|) >= 1e-3, the generator's own documented threshold; density-matrix letters are densities of the trial (own, exact, smeared with the trial's orbitals as leading natural orbitals, mean-field reference as mpi_jax supplies it) with an open natural-occupation gap (> 0.2) at n_sigma; a ValueError is always accepted (the property allows refusal), refusals are counted in the guards")
     ctx.assume("kinds without _calc_rdm1 raise the documented NotImplementedError when no rdm1 is supplied (counted, outside the property)")
     jobs = qr_configs(ctx.tier, ctx.seed) + init_configs(ctx.tier, ctx.seed)
